@@ -27,6 +27,7 @@ ASSUMPTIONS = ["views are judged against the object's own buckets (what the rank
                "presumes whether an emptied ranking is kept or dropped",
                "C16/after-failed-mutator reads 'after any sequence' as including sequences with a refused removal"]
 EXPECTED_PROBES = ["mutator_changed", "mutator_failed", "unified_checked", "projection_checked", "views_checked",
+                   "live_rechecked", "child_mutated",
                    "consensus_ranking_checked", "from_file_ctor", "generator_ctor"]
 STATES_MEASURE = "distinct (op kind, outcome, dataset shape) triples"
 
@@ -63,7 +64,11 @@ def gen_case(st, tier, env):
             ops.append({"op": "consensus", "alg": w.choice(["PickAPerm", "BordaCount"])})
         elif r < 0.94:
             ops.append({"op": "parse", "which": w.randrange(64), "notation": w.choice(["brace", "bracket"])})
-        elif r < 0.97:
+        elif r < 0.955:
+            ops.append({"op": "mutate_child", "which": w.randrange(64), "pick": [w.randrange(64)],
+                        "how": w.choice(["remove_elements", "remove_empty_rankings", "remove_rate"]),
+                        "rate": w.choice([0.3, 0.6])})
+        elif r < 0.975:
             # an illegal construction: the same name (after the library's own normalisation) in two buckets, adjacent
             # or not; the API must refuse it or hand out a ranking whose buckets are disjoint
             ops.append({"op": "overlap", "via": w.choice(["Ranking", "from_string", "from_raw_list", "zero_padded"]),
@@ -217,6 +222,19 @@ def run_case(case, ctx):
     cur_op = None
     ctx.probe("views_checked")
     report(dataset_views(ds), "C16/views", "construction")
+    live = []  # derived datasets still held by the caller: [name, object, model of its rankings]
+
+    def recheck_live(after_op):
+        """A derived dataset is an object of its own: editing its parent (or a sibling) must not touch it."""
+        for name, obj, want in live:
+            now = canon_rankings(obj.rankings)
+            if now != want:
+                report([(name + " changed by " + after_op, model.canon(now), model.canon(want))], "C16/derived-views",
+                       after_op, {"live": name})
+            bads = dataset_views(obj, name + " (held since)")
+            if bads:
+                report(bads, "C16/derived-views", after_op, {"live": name})
+            ctx.probe("live_rechecked")
 
     # ---- history -----------------------------------------------------------------------------------------------
     for op in case["ops"]:
@@ -278,6 +296,8 @@ def run_case(case, ctx):
                 report([("unified_dataset", model.canon(canon_rankings(ud.rankings)), model.canon(model.renorm(want)))],
                        "C16/unification", kind)
             report(dataset_views(ud, "unified_dataset()"), "C16/derived-views", kind)
+            live.append(["unified_dataset()", ud, canon_rankings(ud.rankings)])
+            del live[:-3]
         elif kind == "sub_problem":
             if not univ:
                 continue
@@ -303,6 +323,8 @@ def run_case(case, ctx):
                 report([("sub_problem", model.canon(canon_rankings(sub.rankings)), model.canon(want))],
                        "C16/projection", kind, {"by": op["by"]})
             report(dataset_views(sub, "sub_problem()"), "C16/derived-views", kind, {"by": op["by"]})
+            live.append(["sub_problem()", sub, canon_rankings(sub.rankings)])
+            del live[:-3]
         elif kind == "consensus":
             sc = build_scheme(gen.preset("unifying", 1.0))
             alg = PickAPerm() if op["alg"] == "PickAPerm" else BordaCount()
@@ -314,6 +336,25 @@ def run_case(case, ctx):
                 for i, r in enumerate(cons.consensus_rankings):
                     bads += ranking_views(r, f"{op['alg']}.consensus_rankings[{i}]")
                 report(bads, "C16/derived-views", kind, {"alg": op["alg"]})
+        elif kind == "mutate_child":
+            if not live:
+                continue
+            ent = live[op["which"] % len(live)]
+            child = ent[1]
+            cu = model.universe(canon_rankings(child.rankings))
+            if op["how"] == "remove_elements" and len(cu) > 1:
+                call(child.remove_elements, {Element(cu[op["pick"][0] % len(cu)])})
+            elif op["how"] == "remove_rate":
+                call(child.remove_elements_rate_presence_lower_than, op["rate"])
+            else:
+                call(child.remove_empty_rankings)
+            ent[2] = canon_rankings(child.rankings)  # the child may change; nobody else may
+            ctx.probe("child_mutated")
+            report(dataset_views(child, ent[0] + " after its own mutation"), "C16/derived-views", kind)
+            if canon_rankings(ds.rankings) != before:
+                report([("parent changed by a mutation of its child", model.canon(canon_rankings(ds.rankings)),
+                         model.canon(before))], "C16/derived-views", kind)
+            report(dataset_views(ds, "parent after child mutation"), "C16/views", kind)
         elif kind == "overlap":
             nb = op["nb"]
             names = list(range(1, nb))  # nb - 1 distinct names in nb buckets: one name comes twice
@@ -367,6 +408,7 @@ def run_case(case, ctx):
         else:
             ctx.probe("views_checked")
             report(dataset_views(ds), "C16/views", "views")
+        recheck_live(kind)
         ctx.event(kind, outcome, model.canon(canon_rankings(ds.rankings)))
 
 
